@@ -639,7 +639,13 @@ class BuiltinMixin:
     def split_ws(self, recv, maxsplit, st, node):
         """str.split() / split(None, k): uninterpreted result with the facts callers rely on."""
         t = TList(recv.t)
-        r = sym.fresh(t, "split")
+        # split is a function of its arguments: the same string (and limit) always gives the same list
+        if maxsplit is None:
+            r = SV(t, z3.Function("SplitWs", sym.IntSeq, z3.SeqSort(sym.IntSeq))(recv.z))
+        elif isinstance(maxsplit.t, TInt):
+            r = SV(t, z3.Function("SplitWsK", sym.IntSeq, z3.IntSort(), z3.SeqSort(sym.IntSeq))(recv.z, maxsplit.z))
+        else:
+            raise EngineError("maxsplit type")
         n = z3.Length(r.z)
         st.assume(n >= 0)
         if maxsplit is not None:
